@@ -97,23 +97,30 @@ class PickleSpy:
         self.log = []
         self.installed = False
 
+    SITES = (("hypergraph.cache", "pickle", "hg.pickle", {"loads", "load"}),
+             ("hypergraph.cache", "hmac", "hg.hmac", {"compare_digest"}),
+             ("diskcache.core", "pickle", "diskcache.pickle", {"load", "loads"}))
+
     def install(self):
-        import diskcache.core as dcore
+        import importlib
 
-        import hypergraph.cache as hc
-
-        self._saved = (hc.pickle, hc.hmac, dcore.pickle)
-        hc.pickle = _Proxy(hc.pickle, self.log, "hg.pickle", {"loads", "load"})
-        hc.hmac = _Proxy(hc.hmac, self.log, "hg.hmac", {"compare_digest"})
-        dcore.pickle = _Proxy(dcore.pickle, self.log, "diskcache.pickle", {"load", "loads"})
+        self._saved = []
+        self.sites = set()
+        for modname, attr, tag, watch in self.SITES:
+            try:
+                mod = importlib.import_module(modname)
+                real = getattr(mod, attr)
+            except (ImportError, AttributeError):
+                continue  # rebinding target absent: the sub-oracle that reads this tag is inconclusive
+            self._saved.append((mod, attr, real))
+            setattr(mod, attr, _Proxy(real, self.log, tag, watch))
+            self.sites.add(tag)
         self.installed = True
 
     def uninstall(self):
-        import diskcache.core as dcore
-
-        import hypergraph.cache as hc
-
-        hc.pickle, hc.hmac, dcore.pickle = self._saved
+        for mod, attr, real in self._saved:
+            setattr(mod, attr, real)
+        self._saved = []
         self.installed = False
 
 
@@ -302,8 +309,11 @@ class Evil:
 
 
 def disk_faults(ctx, dcache, spy, built, spec, pool, cacheable, case):
-    dc = dcache._cache
-    suffix = dcache._HMAC_SUFFIX
+    dc = getattr(dcache, "_cache", None)
+    suffix = getattr(dcache, "_HMAC_SUFFIX", None)
+    if dc is None or not isinstance(suffix, str):
+        ctx.inconc("DiskCache no longer exposes _cache/_HMAC_SUFFIX: stored entries cannot be corrupted from the harness")
+        return
     keys = [k for k in dc.iterkeys() if isinstance(k, str) and not k.endswith(suffix)]
     if not keys:
         return
@@ -363,6 +373,8 @@ def disk_faults(ctx, dcache, spy, built, spec, pool, cacheable, case):
                     hit, val, exc = None, None, e
             finally:
                 pspy.uninstall()
+            for t in pspy.sites:
+                ctx.obs["spy_site:" + t] += 1
             if exc is not None:
                 ctx.violation("C09:fault-raised:" + fault, f"get() of an entry with {fault} raised {exc!r}", c2)
             elif hit and (fault in ("torn-fresh",) or val != stored_value):
